@@ -28,6 +28,10 @@ CONSTANTS N,            \* rows of the reference table (15000 in the format; 3 h
           DSNames,      \* data sets explored
           MaxExtra,     \* bound on optional resets + skipped data sets per file
           RoleLimit,    \* see above
+          SkipSet,      \* kinds of skipped data sets the encoder may insert
+          HdrSet,       \* header data sets (bbox, filets) it may insert
+          RefPolicy,    \* "any": inline or any matching row; "first": always the newest matching row; "inline": never a reference
+          BulkN,        \* size of the generated data set "bulk" (more distinct strings than the real table has rows)
           ExportHist
 VARIABLES ds, variant, pc, i, slot, fresh, nextra,
           mru, ereg,                 \* encoder
@@ -35,7 +39,12 @@ VARIABLES ds, variant, pc, i, slot, fresh, nextra,
           dobj, decoded, box, hist
 vars == <<ds, variant, pc, i, slot, fresh, nextra, mru, ereg, ring, cur, dreg, dobj, decoded, box, hist>>
 
-D == Data(ds)
+\* "bulk": BulkN nodes with one new tag each, then nodes whose tags were seen 1, N-1, N and N+1 .. insertions ago
+BulkTag(j) == T(ToString(j), "v")
+BulkData == [j \in 1..BulkN |-> NodeB(j, 0, 0, <<BulkTag(j)>>)] \o
+            << NodeB(BulkN + 1, 1, 1, <<BulkTag(BulkN), BulkTag(BulkN - N + 1), BulkTag(BulkN - N), BulkTag(BulkN - N + 2), BulkTag(1)>>),
+               NodeB(BulkN + 2, 2, 2, <<BulkTag(BulkN - N), BulkTag(BulkN), BulkTag(BulkN - 1), BulkTag(2)>>) >>
+D == IF ds = "bulk" THEN BulkData ELSE Data(ds)
 Min(a, b) == IF a < b THEN a ELSE b
 
 ZeroReg == [id |-> 0, ts |-> 0, cs |-> 0, lon |-> 0, lat |-> 0, wref |-> 0, n |-> 0, w |-> 0, r |-> 0]
@@ -78,8 +87,8 @@ FinalMems(ms, k, reg) == IF k > Len(ms) THEN reg ELSE FinalMems(ms, k + 1, [reg 
 MReg(reg) == [n |-> reg.n, w |-> reg.w, r |-> reg.r]
 
 Init == /\ ds \in DSNames /\ variant \in {"o5m", "o5c"}
-        /\ (\E k \in 1..Len(Data(ds)) : ~Data(ds)[k].vis) => variant = "o5c"
-        /\ \A k \in 1..Len(Data(ds)) : O5mCarries(Data(ds)[k])
+        /\ (\E k \in 1..Len(D) : ~D[k].vis) => variant = "o5c"
+        /\ \A k \in 1..Len(D) : O5mCarries(D[k])
         /\ pc = "obj" /\ i = 1 /\ slot = 0 /\ fresh = TRUE /\ nextra = 0
         /\ mru = <<>> /\ ereg = ZeroReg
         /\ ring = [x \in 0..N - 1 |-> NoStr] /\ cur = 0 /\ dreg = ZeroReg
@@ -105,7 +114,7 @@ TypeReset == /\ pc = "obj" /\ i > 1 /\ i <= Len(D) /\ D[i].t # D[i - 1].t /\ ~fr
 
 (* data sets a reader has to skip: sync (0xee), jump (0xef), types no version of the format defines
    (with content, without content, with a 2 byte length), single byte data sets 0xf0..0xfd *)
-SkipKinds == {"sync", "jump", "unknown", "unknown0", "unknownL", "byte"}
+SkipKinds == {"sync", "jump", "unknown", "unknown0", "unknownL", "byte"} \cap SkipSet
 Skip(kind) == /\ pc = "obj" /\ nextra < MaxExtra
               /\ nextra' = nextra + 1
               /\ Rec([a |-> "skip", kind |-> kind])
@@ -167,10 +176,14 @@ ObjStart ==
     /\ Rec([a |-> "obj", i |-> i - 1, strs |-> <<>>])
     /\ UNCHANGED <<ds, variant, i, nextra, mru, ring, cur, decoded, box>>
 
+Hows(b) == LET m == {idx \in 1..Len(mru) : mru[idx] = b} IN
+           CASE RefPolicy = "inline" -> {0}
+             [] RefPolicy = "first"  -> IF m = {} THEN {0} ELSE {CHOOSE x \in m : \A y \in m : x <= y}
+             [] OTHER                -> {0} \cup m
 (* one string (pair): inline (0x00 + bytes) or a reference 1..N; inline strings enter the table *)
 Str == /\ pc = "strs" /\ slot <= Len(Slots(D[i]))
        /\ LET b == Slots(D[i])[slot] IN
-          \E how \in {0} \cup {idx \in 1..Len(mru) : mru[idx] = b} :
+          \E how \in Hows(b) :
              /\ LET got == IF how = 0 THEN b ELSE ring[(cur + N - how) % N]        \* ReferenceTable::get
                 IN dobj' = [dobj EXCEPT !.strs = Append(@, got)]
              /\ mru' = IF how = 0 /\ FormatStores(b) THEN SubSeq(<<b>> \o mru, 1, Min(N, Len(mru) + 1)) ELSE mru
@@ -206,7 +219,7 @@ Finish == /\ pc = "obj" /\ i > Len(D)
           /\ pc' = "done"
           /\ UNCHANGED <<ds, variant, i, slot, fresh, nextra, mru, ereg, ring, cur, dreg, dobj, decoded, box, hist>>
 
-Next == Reset \/ TypeReset \/ (\E k \in SkipKinds : Skip(k)) \/ (\E k \in {"bbox", "filets"} : HeaderDs(k))
+Next == Reset \/ TypeReset \/ (\E k \in SkipKinds : Skip(k)) \/ (\E k \in {"bbox", "filets"} \cap HdrSet : HeaderDs(k))
         \/ ObjStart \/ Str \/ ObjEnd \/ Finish
 Spec == Init /\ [][Next]_vars
 
@@ -215,9 +228,11 @@ TypeOK == /\ cur \in 0..N - 1 /\ Len(mru) <= N /\ i \in 1..Len(D) + 1
 TableAgree == \A idx \in 1..Len(mru) : ring[(cur + N - idx) % N] = mru[idx]
 \* the decoder's lon / lat registers are 64 bit accumulators: equal to the encoder's 32 bit registers modulo 2^32
 RegsAgree == pc \in {"obj", "done"} => [dreg EXCEPT !.lon = Wrap(@), !.lat = Wrap(@)] = ereg
-DecodedOK == /\ IsPrefix(decoded, D)
-             /\ pc = "done" => decoded = D
-             /\ (pc = "strs" /\ dobj.strs # <<>>) => dobj.strs = SubSeq(Slots(D[i]), 1, Len(dobj.strs))
+\* one object is appended per step, so "the newest object is right" at every reachable state = "decoded is a prefix of D"
+DecodedOK == /\ Len(decoded) <= Len(D)
+             /\ decoded # <<>> => decoded[Len(decoded)] = D[Len(decoded)]
+             /\ pc = "done" => Len(decoded) = Len(D)
+             /\ (pc = "strs" /\ dobj.strs # <<>>) => dobj.strs[Len(dobj.strs)] = Slots(D[i])[Len(dobj.strs)]
 Export == pc = "done" =>
             PrintT(<<"CASE", ToJson([fmt |-> "o5m", ds |-> ds, N |-> N, variant |-> variant, box |-> box,
                                      steps |-> hist, exp |-> decoded])>>)
